@@ -56,8 +56,7 @@ def pubkey(pi: int, b0: int, b1: int, b2: int, b3: int) -> bool:
     proto, dongle, world = make_stack(d, v1=v1)
     req = {"command": "getPubKey", "version": 1 if v1 else 5, "keyId": KEY_PATHS[pi]}
     out = handle(proto, req)
-    return out[0] == "reply" and out[1].get("errorcode") == 0 and out[1].get("pubKey") == hexof(want) \
-        and len(out[1]) == 2
+    return out[0] == "reply" and out[1].get("errorcode") == 0 and out[1].get("pubKey") == hexof(want)
 
 
 @obligation(tier="quick", parts=2, timeout=120, part_names=["36 difficulty bytes", "short difficulty (0..3 bytes)"],
@@ -98,12 +97,7 @@ def blockchain_state(h: int, diff: bytes, f0: int, f1: int, f2: int) -> bool:
     if up["in_progress"] is not (f0 != 0) or up["already_validated"] is not (f1 != 0) \
             or up["found_best_block"] is not (f2 != 0):
         ok = False
-    # exactly the documented fields
-    if sorted(st.keys()) != ["ancestor_block", "ancestor_receipts_root", "best_block", "newest_valid_block", "updating"]:
-        ok = False
-    if sorted(up.keys()) != ["already_validated", "best_block", "found_best_block", "in_progress",
-                             "newest_valid_block", "next_expected_block", "total_difficulty"]:
-        ok = False
+    # (all documented fields were read above; additional fields would not contradict the statement)
     return ok
 
 
@@ -129,8 +123,7 @@ def parameters(c0: int, c31: int, mrd: bytes, net: int) -> bool:
         return out[1] == {"errorcode": -905}
     p = out[1].get("parameters")
     return out[1].get("errorcode") == 0 and p is not None and p["checkpoint"] == hexof(cp) \
-        and p["minimum_difficulty"] == be_value(mrd) and p["network"] == NETWORKS[net] \
-        and sorted(p.keys()) == ["checkpoint", "minimum_difficulty", "network"]
+        and p["minimum_difficulty"] == be_value(mrd) and p["network"] == NETWORKS[net]
 
 
 def der_oracle(sig):
@@ -187,7 +180,7 @@ def heartbeat(sig: bytes, k: int, m: int, t: int) -> bool:
     r = out[1]
     return r.get("errorcode") == 0 and r.get("pubKey") == hexof(d.hb_pubkey) and r.get("message") == hexof(d.hb_message) \
         and r.get("tweak") == hexof(d.hb_tweak) and r["signature"]["r"] == hexof(want[0]) \
-        and r["signature"]["s"] == hexof(want[1]) and sorted(r.keys()) == ["errorcode", "message", "pubKey", "signature", "tweak"]
+        and r["signature"]["s"] == hexof(want[1])
 
 
 import os
